@@ -1,5 +1,4 @@
 import LeptosModel.Proofs.Macro
-import LeptosModel.Theorems.C06
 import LeptosModel.Gen.Elements
 /-!
 # C18 — the `view!` macro renders what the template says
@@ -7,18 +6,23 @@ import LeptosModel.Gen.Elements
 Model: Model/Macro.lean (`inertHtml` = the macro-time printer, `builderView`/`builderKids` = the builder
 path as a tachys view, `macroHtml` = `to_html()` of the expansion the macro really produces, `denote` =
 the document a template stands for, `normalize` = normal form of a parsed document).  `parse`, `toHtml`
-and C06's `C06_structure_preserved` come from Model/Html, Theorems/C06.
+and C06's structure theorem (`C06_structure_preserved`, used through its copy `structure_preserved` in
+Proofs/Macro.lean, proved from the same `run_kids`) come from Model/Html, Proofs/Html.
+
+The model is of /repo after fix-c18-1 (noscript joins the macro's no-escape list), fix-c18-3 (the inert
+printer trims a class literal like tachys trims the class attribute) and fix-c18-4 (an empty literal is one
+space on the inert path as well); the printer before those commits is `inertHtmlOld` / `macroHtmlOld`, with
+the three regression witnesses at the end.
 
 All theorems quantify over **all** templates of the modelled grammar (elements of any nesting depth,
-every attribute form, text, `{block}`s, fragments, `<Wrap>`), with all strings unbounded.  The hypothesis
-`wfTs false [[]] ts` (Proofs/Macro.lean, decidable) says: the elements are ones the parser subset of C06
-knows and the tree builder simply inserts, attribute names are tokenizable and distinct (what the macro
-itself demands), no string contains U+0000/U+000D (C06's classes), **and** the four C18 finding classes
-are absent: raw-text elements have no children and `<title>` one string (`rawtext-marker`,
-`noscript-inert`; also C06's `raw-text-child`), no empty text (`empty-text`), class strings without
-Unicode-only white space (`class-unicode-ws`).  For each class the full statement is refuted below by a
-kernel-checked witness that was replayed on the real macro (corpus/C18).
+every attribute form, text, `{block}`s, fragments, `<Wrap>`), with all strings unbounded — empty strings and
+any white space included.  The hypothesis `wfTs [[]] ts` (Proofs/Macro.lean, decidable) says: the elements are
+ones the parser subset of C06 knows and the tree builder simply inserts, attribute names are tokenizable and
+distinct (what the macro itself demands), no string contains U+0000/U+000D (C06's classes), and raw-text
+elements have no children, `<title>` one string (C06's `raw-text-child`; the remaining C18 class
+`rawtext-marker`, refuted below by a kernel-checked witness replayed on the real macro, corpus/C18).
 -/
+set_option linter.unusedSimpArgs false
 namespace Leptos.Macro
 open Leptos.Html
 
@@ -26,35 +30,35 @@ open Leptos.Html
 
 /-- **builder path**: the HTML tachys prints for what the builder path constructs parses, after
 normalisation, to exactly the document the template denotes. -/
-theorem C18_builder_denotes (ts : List Tmpl) (h : wfTs false [[]] ts = true) :
+theorem C18_builder_denotes (ts : List Tmpl) (h : wfTs [[]] ts = true) :
     normalize (parse (toHtml (builderKids ts))) = some (denote ts) := by
-  rw [builderKids_eq ts true, C06_structure_preserved _ (wf_viewKids ts false true [[]] h)]
+  rw [builderKids_eq ts true, structure_preserved _ (wf_viewKids ts false true [[]] h)]
   have := struct_viewKids ts false true [[]] h .firstChild []
   simp only [List.append_nil, normList] at this
   simp [normalize, structureOf, this, denote]
 
 /-- **the expansion the macro really produces** (builder elements with `InertElement` strings wherever
 `is_inert_element` says so): same statement. -/
-theorem C18_macro_denotes (ts : List Tmpl) (h : wfTs false [[]] ts = true) :
+theorem C18_macro_denotes (ts : List Tmpl) (h : wfTs [[]] ts = true) :
     normalize (parse (macroHtml ts)) = some (denote ts) := by
-  rw [macroHtml_eq ts h, C06_structure_preserved _ (wf_viewKids ts true true [[]] h)]
+  rw [macroHtml_eq ts h, structure_preserved _ (wf_viewKids ts true true [[]] h)]
   have := struct_viewKids ts true true [[]] h .firstChild []
   simp only [List.append_nil, normList] at this
   simp [normalize, structureOf, this, denote]
 
 /-- **inert path**: the string the macro prints at compile time for an inert element parses, after
-normalisation, to the document the element denotes (empty literals allowed here). -/
-theorem C18_inert_denotes (t : Tmpl) (h : wfT true [[]] t = true) (hi : isInert t = true) :
+normalisation, to the document the element denotes. -/
+theorem C18_inert_denotes (t : Tmpl) (h : wfT [[]] t = true) (hi : isInert t = true) :
     normalize (parse (inertHtml t)) = some (denote [t]) := by
   cases t with
   | elem tag attrs kids =>
-    have hw : wfTs true [[]] [.elem tag attrs kids] = true := by simp [wfTs, h]
+    have hw : wfTs [[]] [.elem tag attrs kids] = true := by simp [wfTs, h]
     have hk := inertNode_of_isInert hi
     have e : inertHtml (.elem tag attrs kids) = toHtml (inertKidsView [.elem tag attrs kids]) := by
       have := inert_html _ [[]] hw hk
       simp only [inertKidsHtml, List.append_nil] at this
       simp [inertHtml, toHtml, this]
-    rw [e, C06_structure_preserved _ (inert_wf _ [[]] hw hk)]
+    rw [e, structure_preserved _ (inert_wf _ [[]] hw hk)]
     have := inert_struct _ [[]] hw hk []
     simp only [List.append_nil, normList] at this
     simp [normalize, structureOf, this, denote]
@@ -64,44 +68,50 @@ theorem C18_inert_denotes (t : Tmpl) (h : wfT true [[]] t = true) (hi : isInert 
   | comp k => simp [isInert] at hi
 
 /-- **both paths yield the same document** for every element the macro may print at compile time. -/
-theorem C18_paths_agree (t : Tmpl) (h : wfT false [[]] t = true) (hi : isInert t = true) :
+theorem C18_paths_agree (t : Tmpl) (h : wfT [[]] t = true) (hi : isInert t = true) :
     normalize (parse (inertHtml t)) = normalize (parse (toHtml (builderView t))) := by
   have hb := C18_builder_denotes [t] (by simp [wfTs, h])
   simp only [builderKids, List.append_nil] at hb
-  rw [C18_inert_denotes t (wfT_mono t _ h) hi, hb]
+  rw [C18_inert_denotes t h hi, hb]
 
 /-- the expansion with inert subtrees and the pure builder path are indistinguishable after
 normalisation: switching a subtree between the two paths is invisible -/
-theorem C18_macro_eq_builder (ts : List Tmpl) (h : wfTs false [[]] ts = true) :
+theorem C18_macro_eq_builder (ts : List Tmpl) (h : wfTs [[]] ts = true) :
     normalize (parse (macroHtml ts)) = normalize (parse (toHtml (builderKids ts))) := by
   rw [C18_macro_denotes ts h, C18_builder_denotes ts h]
 
 /-! ## adding a dynamic part leaves the static parts alone -/
 
 /-- the denotation of a context around a hole, as a function of what the hole contributes -/
-def shellDen (sh : Shell) (hole : List Tree → List Tree) (l r : List Tmpl) (acc : List Tree) : List Tree :=
+def shellDen (esc : Bool) (sh : Shell) (hole : Bool → List Tree → List Tree) (l r : List Tmpl) (acc : List Tree) :
+    List Tree :=
   match sh with
-  | .elem tag attrs => .elem tag (denAttrs attrs) (if isVoid tag then [] else denKs l (hole (denKs r []))) :: acc
-  | .frag => denKs l (hole (denKs r acc))
-  | .comp => .elem sSection [] (denKs l (hole (denKs r []))) :: acc
+  | .elem tag attrs =>
+    .elem tag (denAttrs attrs)
+      (if isVoid tag then [] else denKs (escapeChildren tag) l (hole (escapeChildren tag) (denKs (escapeChildren tag) r []))) :: acc
+  | .frag => denKs esc l (hole esc (denKs esc r acc))
+  | .comp => .elem sSection [] (denKs true l (hole true (denKs true r []))) :: acc
 
-def plugDen : List Frame → (List Tree → List Tree) → (List Tree → List Tree)
+/-- `hole esc acc`: what the hole contributes in front of `acc` when its strings are escaped (`esc`) -/
+def plugDen : List Frame → (Bool → List Tree → List Tree) → (Bool → List Tree → List Tree)
   | [], hole => hole
-  | f :: fs, hole => plugDen fs (shellDen f.shell hole f.left f.right)
+  | f :: fs, hole => plugDen fs (fun esc => shellDen esc f.shell hole f.left f.right)
 
-theorem denKs_append (a b : List Tmpl) (acc : List Tree) : denKs (a ++ b) acc = denKs a (denKs b acc) := by
+theorem denKs_append (esc : Bool) (a b : List Tmpl) (acc : List Tree) :
+    denKs esc (a ++ b) acc = denKs esc a (denKs esc b acc) := by
   induction a with
   | nil => simp [denKs]
   | cons t a ih => simp [denKs, ih]
 
-theorem denKs_plug (fs : List Frame) : ∀ (x : List Tmpl) (acc : List Tree),
-    denKs (plug fs x) acc = plugDen fs (denKs x) acc := by
+theorem denKs_plug (fs : List Frame) : ∀ (x : List Tmpl) (esc : Bool) (acc : List Tree),
+    denKs esc (plug fs x) acc = plugDen fs (fun e => denKs e x) esc acc := by
   induction fs with
-  | nil => intro x acc; rfl
+  | nil => intro x esc acc; rfl
   | cons f fs ih =>
-    intro x acc
-    have e : denKs [f.shell.wrap (f.left ++ x ++ f.right)] = shellDen f.shell (denKs x) f.left f.right := by
-      funext a
+    intro x esc acc
+    have e : (fun e => denKs e [f.shell.wrap (f.left ++ x ++ f.right)]) =
+        (fun e => shellDen e f.shell (fun e => denKs e x) f.left f.right) := by
+      funext e a
       cases hs : f.shell <;>
         simp [Shell.wrap, denKs, denK, shellDen, denKs_append]
     simp only [plug, plugDen, ih, e]
@@ -111,18 +121,19 @@ context's own denotation — every sibling subtree at every level, every ancesto
 from the context alone — around what `x` denotes.  Whether `x` is static (and its ancestors therefore
 possibly printed at macro time) or a dynamic `{block}` (which forces all its ancestors onto the builder
 path) changes nothing outside the hole. -/
-theorem C18_static_parts_stable (fs : List Frame) (x : List Tmpl) (h : wfTs false [[]] (plug fs x) = true) :
-    normalize (parse (macroHtml (plug fs x))) = some (plugDen fs (denKs x) []) := by
+theorem C18_static_parts_stable (fs : List Frame) (x : List Tmpl) (h : wfTs [[]] (plug fs x) = true) :
+    normalize (parse (macroHtml (plug fs x))) = some (plugDen fs (fun e => denKs e x) true []) := by
   rw [C18_macro_denotes _ h, denote, denKs_plug]
 
 /-- the two-template form: replacing the subtree `x` by the dynamic block `{v}` -/
 theorem C18_static_parts_stable_block (fs : List Frame) (x : List Tmpl) (v : Str)
-    (h1 : wfTs false [[]] (plug fs x) = true) (h2 : wfTs false [[]] (plug fs [.block v]) = true) :
-    normalize (parse (macroHtml (plug fs x))) = some (plugDen fs (denKs x) []) ∧
-    normalize (parse (macroHtml (plug fs [.block v]))) = some (plugDen fs (consText v) []) := by
+    (h1 : wfTs [[]] (plug fs x) = true) (h2 : wfTs [[]] (plug fs [.block v]) = true) :
+    normalize (parse (macroHtml (plug fs x))) = some (plugDen fs (fun e => denKs e x) true []) ∧
+    normalize (parse (macroHtml (plug fs [.block v]))) = some (plugDen fs (fun e => consText (textDen e v)) true []) := by
   refine ⟨C18_static_parts_stable fs x h1, ?_⟩
   rw [C18_static_parts_stable fs _ h2]
-  have : denKs [Tmpl.block v] = consText v := by funext a; simp [denKs, denK]
+  have : (fun e => denKs e [Tmpl.block v]) = (fun e => consText (textDen e v)) := by
+    funext e a; simp [denKs, denK]
   rw [this]
 
 /-! ## the forced-dynamic twin -/
@@ -165,14 +176,10 @@ theorem plainDen_dyn (attrs : List TAttr) : plainDen (attrs.map dynAttr) = plain
     | boolDyn n b => cases b <;> simp [dynAttr, plainDen, ih]
     | _ => simp [dynAttr, plainDen, ih]
 
-theorem classDen_dyn (attrs : List TAttr) : classDen (attrs.map dynAttr) = classDen attrs := by
+theorem classSrc_dyn (attrs : List TAttr) : classSrc (attrs.map dynAttr) = classSrc attrs := by
   induction attrs with
   | nil => rfl
-  | cons a r ih =>
-    cases a with
-    | clsToggle n b => cases b <;> simp [dynAttr, classDen, ih]
-    | clsTuple n b => cases b <;> simp [dynAttr, classDen, ih]
-    | _ => simp [dynAttr, classDen, ih]
+  | cons a r ih => cases a <;> simp [dynAttr, classSrc, ih]
 
 theorem styleSrc_dyn (attrs : List TAttr) : styleSrc (attrs.map dynAttr) = styleSrc attrs := by
   induction attrs with
@@ -180,22 +187,22 @@ theorem styleSrc_dyn (attrs : List TAttr) : styleSrc (attrs.map dynAttr) = style
   | cons a r ih => cases a <;> simp [dynAttr, styleSrc, ih]
 
 theorem denAttrs_dyn (attrs : List TAttr) : denAttrs (attrs.map dynAttr) = denAttrs attrs := by
-  simp [denAttrs, plainDen_dyn, sortAttrs_dyn, classDen_dyn, styleSrc_dyn]
+  simp [denAttrs, plainDen_dyn, sortAttrs_dyn, classSrc_dyn, styleSrc_dyn]
 
 mutual
 /-- … and denotes the same document -/
-theorem C18_twin_same_meaning : (t : Tmpl) → ∀ acc, denK (dynamize t) acc = denK t acc
-  | .text s, _ => by simp [dynamize, denK]
-  | .block s, _ => by simp [dynamize, denK]
-  | .elem tag attrs kids, _ => by simp [dynamize, denK, denAttrs_dyn, C18_twin_same_meaning_kids kids]
-  | .frag kids, _ => by simp [dynamize, denK, C18_twin_same_meaning_kids kids]
-  | .comp kids, _ => by simp [dynamize, denK, C18_twin_same_meaning_kids kids]
-theorem C18_twin_same_meaning_kids : (ts : List Tmpl) → ∀ acc, denKs (dynKids ts) acc = denKs ts acc
-  | [], _ => by simp [dynKids, denKs]
-  | t :: ts, acc => by simp [dynKids, denKs, C18_twin_same_meaning t, C18_twin_same_meaning_kids ts]
+theorem C18_twin_same_meaning : (t : Tmpl) → ∀ esc acc, denK esc (dynamize t) acc = denK esc t acc
+  | .text s, _, _ => by simp [dynamize, denK]
+  | .block s, _, _ => by simp [dynamize, denK]
+  | .elem tag attrs kids, _, _ => by simp [dynamize, denK, denAttrs_dyn, C18_twin_same_meaning_kids kids]
+  | .frag kids, _, _ => by simp [dynamize, denK, C18_twin_same_meaning_kids kids]
+  | .comp kids, _, _ => by simp [dynamize, denK, C18_twin_same_meaning_kids kids]
+theorem C18_twin_same_meaning_kids : (ts : List Tmpl) → ∀ esc acc, denKs esc (dynKids ts) acc = denKs esc ts acc
+  | [], _, _ => by simp [dynKids, denKs]
+  | t :: ts, esc, acc => by simp [dynKids, denKs, C18_twin_same_meaning t, C18_twin_same_meaning_kids ts]
 end
 
-/-! ## the full statements, and why they are false of the code -/
+/-! ## the full statements, and why they are still false of the code -/
 
 /-- the full property: whatever the real expansion renders, if it is HTML at all (inside the parser
 subset), it is the document the template denotes -/
@@ -211,27 +218,8 @@ def sDiv : Str := ['d','i','v']
 def sP : Str := ['p']
 def cNbsp : Char := Char.ofNat 160
 
-/-- F-C18-1 (`noscript-inert`): the macro-time printer escapes the text of `<noscript>` (its no-escape list
-is `script|style|textarea`), tachys does not (`ESCAPE_CHILDREN = false`), and a parser with scripting
-enabled reads `<noscript>` as raw text: `<noscript>"a<b"</noscript>` is `a&lt;b` on the inert path (text
-`a&lt;b`) and `a<b` on the builder path. -/
-theorem C18_noscript_inert_witness :
-    isInert (.elem tNoscript [] [.text ['a','<','b']]) = true ∧
-    inertHtml (.elem tNoscript [] [.text ['a','<','b']]) =
-      ['<','n','o','s','c','r','i','p','t','>','a','&','l','t',';','b','<','/','n','o','s','c','r','i','p','t','>'] ∧
-    normalize (parse (inertHtml (.elem tNoscript [] [.text ['a','<','b']]))) =
-      some [.elem tNoscript [] [.text ['a','&','l','t',';','b']]] ∧
-    normalize (parse (toHtml (builderView (.elem tNoscript [] [.text ['a','<','b']])))) =
-      some [.elem tNoscript [] [.text ['a','<','b']]] ∧
-    denote [.elem tNoscript [] [.text ['a','<','b']]] = [.elem tNoscript [] [.text ['a','<','b']]] ∧
-    -- as the macro really expands it (a child of a root element), and with a dynamic sibling added
-    normalize (parse (macroHtml [.elem sDiv [] [.elem tNoscript [] [.text ['a','<','b']]]])) =
-      some [.elem sDiv [] [.elem tNoscript [] [.text ['a','&','l','t',';','b']]]] ∧
-    findingClass [.elem sDiv [] [.elem tNoscript [] [.text ['a','<','b']]]] = some 0 := by
-  decide
-
-/-- F-C18-2 (`rawtext-marker`): between two string children tachys writes the marker `<!>`, also inside
-`<title>` (RCDATA), where it is text: `<title>"T" {"u"}</title>` has the title `T<!>u`; the static
+/-- F-C18-2 (`rawtext-marker`, not repaired): between two string children tachys writes the marker `<!>`,
+also inside `<title>` (RCDATA), where it is text: `<title>"T" {"u"}</title>` has the title `T<!>u`; the static
 `<title>"T" "u"</title>` (inert path) has `Tu`. -/
 theorem C18_rawtext_marker_witness :
     macroHtml [.elem sDiv [] [.elem tTitle [] [.text ['T'], .block ['u']]]] =
@@ -245,35 +233,14 @@ theorem C18_rawtext_marker_witness :
     findingClass [.elem sDiv [] [.elem tTitle [] [.text ['T'], .block ['u']]]] = some 1 := by
   decide
 
-/-- F-C18-3 (`class-unicode-ws`): tachys trims the class attribute with `str::trim` (Unicode white
-space); the inert printer writes the literal as it is.  `class="\u{a0}x"`: one class token `U+00A0 x` on the
-inert path, the token `x` on the builder path. -/
-theorem C18_class_unicode_ws_witness :
-    isInert (.elem sP [.cls false [cNbsp, 'x']] [.text ['t']]) = true ∧
-    normalize (parse (inertHtml (.elem sP [.cls false [cNbsp, 'x']] [.text ['t']]))) =
-      some [.elem sP [(sClass, [cNbsp, 'x'])] [.text ['t']]] ∧
-    normalize (parse (toHtml (builderView (.elem sP [.cls false [cNbsp, 'x']] [.text ['t']])))) =
-      some [.elem sP [(sClass, ['x'])] [.text ['t']]] ∧
-    denote [.elem sP [.cls false [cNbsp, 'x']] [.text ['t']]] = [.elem sP [(sClass, [cNbsp, 'x'])] [.text ['t']]] ∧
-    findingClass [.elem sP [.cls false [cNbsp, 'x']] [.text ['t']]] = some 2 := by
-  decide
-
-/-- F-C18-4 (`empty-text`): an empty string child is one space for tachys and nothing for the inert
-printer: `<p>""</p>` is `<p></p>` at macro time and `<p> </p>` on the builder path. -/
-theorem C18_empty_text_witness :
-    isInert (.elem sP [] [.text []]) = true ∧
-    normalize (parse (inertHtml (.elem sP [] [.text []]))) = some [.elem sP [] []] ∧
-    normalize (parse (toHtml (builderView (.elem sP [] [.text []])))) = some [.elem sP [] [.text [' ']]] ∧
-    denote [.elem sP [] [.text []]] = [.elem sP [] []] ∧
-    findingClass [.elem sP [] [.text []]] = some 3 := by
-  decide
-
 theorem C18_paths_agree_full_false : ¬ C18_paths_agree_full := by
   intro h
-  have w := C18_empty_text_witness
-  have ha : parse (inertHtml (.elem sP [] [.text []])) = some [.elem sP [] []] := by decide
-  have hb : parse (toHtml (builderView (.elem sP [] [.text []]))) = some [.elem sP [] [.text [' ']]] := by decide
-  have := h _ w.1 _ _ ha hb
+  have hi : isInert (.elem tTitle [] [.text ['T'], .text ['u']]) = true := by decide
+  have ha : parse (inertHtml (.elem tTitle [] [.text ['T'], .text ['u']])) = some [.elem tTitle [] [.text ['T','u']]] := by
+    decide
+  have hb : parse (toHtml (builderView (.elem tTitle [] [.text ['T'], .text ['u']]))) =
+      some [.elem tTitle [] [.text ['T','<','!','>','u']]] := by decide
+  have := h _ hi _ _ ha hb
   revert this
   decide
 
@@ -285,35 +252,199 @@ theorem C18_macro_denotes_full_false : ¬ C18_macro_denotes_full := by
   revert this
   decide
 
-/-- **the finding classes are exactly outside the hypothesis**: a well-formed template is in none of the
-four classes the driver attaches to failing verdicts (so the partial theorems' hypothesis and the known-finding
-classes do not overlap) -/
-theorem C18_classes_excluded (ts : List Tmpl) (h : wfTs false [[]] ts = true) : findingClass ts = none := by
-  have hall := seen_ok_kids ts true [[]] h
-  have key : ∀ (p : Seen → Bool), (∀ s, p s = true → s.bad = true) → (seenKids true true ts).any p = false := by
-    intro p hp
-    cases hany : (seenKids true true ts).any p
+/-- **the remaining finding class is outside the hypothesis**: a well-formed template is not in the class the
+driver attaches to failing verdicts -/
+theorem C18_classes_excluded (ts : List Tmpl) (h : wfTs [[]] ts = true) : findingClass ts = none := by
+  have hall := seen_ok_kids ts true true [[]] h
+  have : (seenKids true true ts).any Seen.rawMarker = false := by
+    cases hany : (seenKids true true ts).any Seen.rawMarker
     · rfl
     · obtain ⟨s, hs, hps⟩ := List.any_eq_true.mp hany
       have := List.all_eq_true.mp hall s hs
-      rw [hp s hps] at this
+      rw [hps] at this
       cases this
-  simp only [findingClass]
-  rw [key Seen.noscriptInert (by intro s h; simp [Seen.bad, h]), key Seen.rawMarker (by intro s h; simp [Seen.bad, h]),
-    key Seen.classWs (by intro s h; simp [Seen.bad, h]), key Seen.emptyText (by intro s h; simp [Seen.bad, h])]
-  simp
+  simp [findingClass, this]
 
-/-- OPEN (not proved; exercised by the harness only): a raw-text element with ONE literal child free of
-`<`, `&`, NUL, CR (and not starting with a line feed, which `<textarea>` drops) renders that literal verbatim on both paths and reads back unchanged.  C06's proved class has
-no lemma for RAWTEXT / script-data content (its raw-text elements are child-less), so the main theorems
-exclude these templates; SVG elements (foreign content, outside `parse`'s subset) are likewise only covered
-by the correspondence run. -/
+/-! ## raw-text elements with one string child (outside C06's proved class: proved here directly) -/
+
+theorem step_text_safe {f : Html.Frame} {fs : List Html.Frame} {c : Char}
+    (h0 : c ≠ cNul) (hr : c ≠ cCr) (ha : c ≠ '&') (hl : c ≠ '<') :
+    step ⟨.text, f :: fs⟩ c = some ⟨.text, { f with kidsRev := pushCharKids c f.kidsRev } :: fs⟩ := by
+  cases hm : curMode (f :: fs) <;> simp [step, stepText, hm, h0, hr, ha, hl, emitChar]
+
+theorem step_skip_safe {f : Html.Frame} {fs : List Html.Frame} {c : Char}
+    (h0 : c ≠ cNul) (hr : c ≠ cCr) (ha : c ≠ '&') (hl : c ≠ '<') (hn : c ≠ cLf) :
+    step ⟨.textSkipLf, f :: fs⟩ c = some ⟨.text, { f with kidsRev := pushCharKids c f.kidsRev } :: fs⟩ := by
+  cases hm : curMode (f :: fs) <;> simp [step, stepText, hm, h0, hr, ha, hl, hn, emitChar]
+
+theorem run_safe (s : Str) : ∀ (f : Html.Frame) (fs : List Html.Frame), titleInert s = true →
+    run ⟨.text, f :: fs⟩ s = some ⟨.text, { f with kidsRev := pushStrKids s f.kidsRev } :: fs⟩ := by
+  induction s with
+  | nil => intro f fs _; simp [run, pushStrKids]
+  | cons c cs ih =>
+    intro f fs h
+    simp only [titleInert, List.all_cons, Bool.and_eq_true, bne_iff_ne, ne_eq] at h
+    obtain ⟨⟨⟨⟨h0, hr⟩, hl⟩, ha⟩, hcs⟩ := h
+    simp only [run, step_text_safe h0 hr ha hl, pushStrKids]
+    exact ih _ fs (by simpa [titleInert] using hcs)
+
+theorem run_safe_skip (s : Str) (f : Html.Frame) (fs : List Html.Frame) (h : titleInert s = true) (hne : s ≠ [])
+    (hlf : s.head? ≠ some cLf) :
+    run ⟨.textSkipLf, f :: fs⟩ s = some ⟨.text, { f with kidsRev := pushStrKids s f.kidsRev } :: fs⟩ := by
+  cases s with
+  | nil => exact absurd rfl hne
+  | cons c cs =>
+    simp only [titleInert, List.all_cons, Bool.and_eq_true, bne_iff_ne, ne_eq] at h
+    obtain ⟨⟨⟨⟨h0, hr⟩, hl⟩, ha⟩, hcs⟩ := h
+    have hn : c ≠ cLf := by simpa using hlf
+    simp only [run, step_skip_safe h0 hr ha hl hn, pushStrKids]
+    exact run_safe cs _ fs (by simpa [titleInert] using hcs)
+
+theorem raw_html (tag s : Str) (htag : tag ∈ [tScript, tStyle, tTextarea]) (hne : s ≠ []) :
+    macroHtml [.elem sDiv [] [.elem tag [] [.text s]]] =
+      ('<' :: sDiv ++ '>' :: '<' :: tag ++ ['>']) ++ (s ++ ('<' :: '/' :: tag ++ '>' :: '<' :: '/' :: sDiv ++ ['>'])) ∧
+    macroHtml [.elem sDiv [] [.elem tag [] [.block s]]] =
+      ('<' :: sDiv ++ '>' :: '<' :: tag ++ ['>']) ++ (s ++ ('<' :: '/' :: tag ++ '>' :: '<' :: '/' :: sDiv ++ ['>'])) := by
+  simp only [List.mem_cons, List.not_mem_nil, or_false] at htag
+  rcases htag with rfl | rfl | rfl <;>
+    simp [macroHtml, expandKids, expand, isInert, inertNode, inertKids, inertHtml, inertNodeHtml, inertKidsHtml, inertAttrs,
+      expKidsHtml, expHtml, builderAttrs, sortAttrs, attrsHtml, plainPart, classBuf, styleBuf, textHtml, hne,
+      show isSvgTag tScript = false from by decide, show isMathTag tScript = false from by decide,
+      show isSvgTag tStyle = false from by decide, show isMathTag tStyle = false from by decide,
+      show isSvgTag tTextarea = false from by decide, show isMathTag tTextarea = false from by decide,
+      show macroIsVoid tScript = false from by decide, show macroIsVoid tStyle = false from by decide,
+      show macroIsVoid tTextarea = false from by decide, show macroIsVoid sDiv = false from by decide,
+      show macroEscapes tScript = false from by decide, show macroEscapes tStyle = false from by decide,
+      show macroEscapes tTextarea = false from by decide,
+      show isVoid tScript = false from by decide, show isVoid tStyle = false from by decide,
+      show isVoid tTextarea = false from by decide, show isVoid sDiv = false from by decide,
+      show escapeChildren tScript = false from by decide, show escapeChildren tStyle = false from by decide,
+      show escapeChildren tTextarea = false from by decide, show escapeChildren sDiv = true from by decide]
+
+
+theorem raw_parse (tag s : Str) (htag : tag ∈ [tScript, tStyle, tTextarea]) (h : titleInert s = true) (hne : s ≠ [])
+    (hlf : s.head? ≠ some cLf) :
+    parse (('<' :: sDiv ++ '>' :: '<' :: tag ++ ['>']) ++ (s ++ ('<' :: '/' :: tag ++ '>' :: '<' :: '/' :: sDiv ++ ['>']))) =
+      some [.elem sDiv [] [.elem tag [] [.text s]]] := by
+  have hpost : ('<' :: '/' :: tag ++ '>' :: '<' :: '/' :: sDiv ++ ['>']) =
+      ('<' :: '/' :: tag ++ ['>']) ++ ('<' :: '/' :: sDiv ++ ['>']) := by simp
+  have hk : pushStrKids s [] = [.text s] := pushStrKids_fresh s [] hne rfl
+  have hdiv : tagCharsOK sDiv = true := by decide
+  unfold parse initState
+  rw [hpost, run_append ('<' :: sDiv ++ '>' :: '<' :: tag ++ ['>']) _]
+  simp only [List.mem_cons, List.not_mem_nil, or_false] at htag
+  rcases htag with rfl | rfl | rfl
+  · have h1 : run ⟨.text, [rootFrame]⟩ ('<' :: sDiv ++ '>' :: '<' :: tScript ++ ['>']) =
+        some ⟨.text, [⟨tScript, [], []⟩, ⟨sDiv, [], []⟩, rootFrame]⟩ := by rfl
+    rw [h1, Option.bind_some, run_append s _, run_safe s _ _ h, Option.bind_some, hk,
+      run_append ('<' :: '/' :: tScript ++ ['>']) _, run_rawEnd (tag := tScript) (by decide) .text (Or.inl rfl) _ _ _ rfl, Option.bind_some,
+      run_endTag (by rfl) hdiv]
+    simp [emitEnd, finish, rootFrame, sDiv]
+  · have h1 : run ⟨.text, [rootFrame]⟩ ('<' :: sDiv ++ '>' :: '<' :: tStyle ++ ['>']) =
+        some ⟨.text, [⟨tStyle, [], []⟩, ⟨sDiv, [], []⟩, rootFrame]⟩ := by rfl
+    rw [h1, Option.bind_some, run_append s _, run_safe s _ _ h, Option.bind_some, hk,
+      run_append ('<' :: '/' :: tStyle ++ ['>']) _, run_rawEnd (tag := tStyle) (by decide) .text (Or.inl rfl) _ _ _ rfl, Option.bind_some,
+      run_endTag (by rfl) hdiv]
+    simp [emitEnd, finish, rootFrame, sDiv]
+  · have h1 : run ⟨.text, [rootFrame]⟩ ('<' :: sDiv ++ '>' :: '<' :: tTextarea ++ ['>']) =
+        some ⟨.textSkipLf, [⟨tTextarea, [], []⟩, ⟨sDiv, [], []⟩, rootFrame]⟩ := by rfl
+    rw [h1, Option.bind_some, run_append s _, run_safe_skip s _ _ h hne hlf, Option.bind_some, hk,
+      run_append ('<' :: '/' :: tTextarea ++ ['>']) _, run_rawEnd (tag := tTextarea) (by decide) .text (Or.inl rfl) _ _ _ rfl, Option.bind_some,
+      run_endTag (by rfl) hdiv]
+    simp [emitEnd, finish, rootFrame, sDiv]
+
+theorem raw_denote (tag s : Str) (htag : tag ∈ [tScript, tStyle, tTextarea]) (hne : s ≠ []) :
+    denote [.elem sDiv [] [.elem tag [] [.text s]]] = [.elem sDiv [] [.elem tag [] [.text s]]] ∧
+    denote [.elem sDiv [] [.elem tag [] [.block s]]] = [.elem sDiv [] [.elem tag [] [.text s]]] ∧
+    normList [.elem sDiv [] [.elem tag [] [.text s]]] = [.elem sDiv [] [.elem tag [] [.text s]]] := by
+  have hd : denAttrs [] = [] := by decide
+  have hn : normAttrs [] = [] := by decide
+  simp only [List.mem_cons, List.not_mem_nil, or_false] at htag
+  rcases htag with rfl | rfl | rfl <;>
+    simp [denote, denKs, denK, hd, hn, textDen, consText, hne, normList, normNode, pushNorm,
+      show isVoid tScript = false from by decide, show isVoid tStyle = false from by decide,
+      show isVoid tTextarea = false from by decide, show isVoid sDiv = false from by decide,
+      show escapeChildren tScript = false from by decide, show escapeChildren tStyle = false from by decide,
+      show escapeChildren tTextarea = false from by decide, show escapeChildren sDiv = true from by decide]
+
+/-- the statement: a `script` / `style` / `textarea` element with ONE string child free of `<`, `&`, NUL, CR
+(and not starting with a line feed, which `<textarea>` drops) renders that string verbatim on both paths —
+static literal (inert path, unescaped by the macro's no-escape list) and `{block}` (builder path, unescaped
+by tachys' `ESCAPE_CHILDREN = false`) — and reads back unchanged. -/
 def C18_rawtext_single_stmt : Prop :=
   ∀ (tag s : Str), tag ∈ [tScript, tStyle, tTextarea] → titleInert s = true → s ≠ [] → s.head? ≠ some cLf →
     normalize (parse (macroHtml [.elem sDiv [] [.elem tag [] [.text s]]])) =
       some (denote [.elem sDiv [] [.elem tag [] [.text s]]]) ∧
     normalize (parse (macroHtml [.elem sDiv [] [.elem tag [] [.block s]]])) =
       some (denote [.elem sDiv [] [.elem tag [] [.block s]]])
+
+/-- formerly OPEN; SVG elements (foreign content, outside `parse`'s subset) and raw-text elements with
+attributes / several children remain covered by the correspondence run only -/
+theorem C18_rawtext_single : C18_rawtext_single_stmt := by
+  intro tag s htag h hne hlf
+  obtain ⟨e1, e2⟩ := raw_html tag s htag hne
+  obtain ⟨d1, d2, n⟩ := raw_denote tag s htag hne
+  have p := raw_parse tag s htag h hne hlf
+  rw [e1, e2, p, d1, d2]
+  simp [normalize, n]
+
+example : titleInert ['i','f',' ','(','a',' ','>',' ','b',')',' ','{','}','"'] = true := by decide
+
+/-! ## regression witnesses: the compile-time printer before fix-c18-1, -3, -4 (`inertHtmlOld`) -/
+
+/-- F-C18-1 (`noscript-inert`, repaired by fix-c18-1): the old printer escaped the text of `<noscript>`
+(`a&lt;b`, which a parser with scripting enabled reads literally) while the builder path and tachys do not; the
+repaired printer writes `a<b` like the builder path. -/
+theorem C18_noscript_inert_regression :
+    isInert (.elem tNoscript [] [.text ['a','<','b']]) = true ∧
+    normalize (parse (inertHtmlOld (.elem tNoscript [] [.text ['a','<','b']]))) =
+      some [.elem tNoscript [] [.text ['a','&','l','t',';','b']]] ∧
+    normalize (parse (toHtml (builderView (.elem tNoscript [] [.text ['a','<','b']])))) =
+      some [.elem tNoscript [] [.text ['a','<','b']]] ∧
+    normalize (parse (inertHtml (.elem tNoscript [] [.text ['a','<','b']]))) =
+      some (denote [.elem tNoscript [] [.text ['a','<','b']]]) ∧
+    normalize (parse (macroHtmlOld [.elem sDiv [] [.elem tNoscript [] [.text ['a','<','b']]]])) =
+      some [.elem sDiv [] [.elem tNoscript [] [.text ['a','&','l','t',';','b']]]] ∧
+    normalize (parse (macroHtml [.elem sDiv [] [.elem tNoscript [] [.text ['a','<','b']]]])) =
+      some (denote [.elem sDiv [] [.elem tNoscript [] [.text ['a','<','b']]]]) ∧
+    findingClassOld [.elem sDiv [] [.elem tNoscript [] [.text ['a','<','b']]]] = some 0 := by
+  decide
+
+/-- F-C18-3 (`class-unicode-ws`, repaired by fix-c18-3): the old printer wrote `class="\u{a0}x"` untrimmed
+(class token `U+00A0 x`) while tachys trims the class attribute (`x`); the repaired printer trims the literal
+the same way. -/
+theorem C18_class_unicode_ws_regression :
+    isInert (.elem sP [.cls false [cNbsp, 'x']] [.text ['t']]) = true ∧
+    normalize (parse (inertHtmlOld (.elem sP [.cls false [cNbsp, 'x']] [.text ['t']]))) =
+      some [.elem sP [(sClass, [cNbsp, 'x'])] [.text ['t']]] ∧
+    normalize (parse (toHtml (builderView (.elem sP [.cls false [cNbsp, 'x']] [.text ['t']])))) =
+      some [.elem sP [(sClass, ['x'])] [.text ['t']]] ∧
+    normalize (parse (inertHtml (.elem sP [.cls false [cNbsp, 'x']] [.text ['t']]))) =
+      some [.elem sP [(sClass, ['x'])] [.text ['t']]] ∧
+    denote [.elem sP [.cls false [cNbsp, 'x']] [.text ['t']]] = [.elem sP [(sClass, ['x'])] [.text ['t']]] ∧
+    findingClassOld [.elem sP [.cls false [cNbsp, 'x']] [.text ['t']]] = some 2 := by
+  decide
+
+/-- F-C18-4 (`empty-text`, repaired by fix-c18-4): the old printer wrote nothing for an empty literal
+(`<p></p>`) while tachys writes one space (`<p> </p>`); the repaired printer writes the space too. -/
+theorem C18_empty_text_regression :
+    isInert (.elem sP [] [.text []]) = true ∧
+    normalize (parse (inertHtmlOld (.elem sP [] [.text []]))) = some [.elem sP [] []] ∧
+    normalize (parse (toHtml (builderView (.elem sP [] [.text []])))) = some [.elem sP [] [.text [' ']]] ∧
+    normalize (parse (inertHtml (.elem sP [] [.text []]))) = some [.elem sP [] [.text [' ']]] ∧
+    denote [.elem sP [] [.text []]] = [.elem sP [] [.text [' ']]] ∧
+    findingClassOld [.elem sP [] [.text []]] = some 3 := by
+  decide
+
+/-- the three old disagreements refute the old versions of `C18_paths_agree` -/
+theorem C18_paths_agree_old_false :
+    ¬ (∀ (t : Tmpl), wfT [[]] t = true → isInert t = true →
+        normalize (parse (inertHtmlOld t)) = normalize (parse (toHtml (builderView t)))) := by
+  intro h
+  have := h (.elem sP [] [.text []]) (by decide) (by decide)
+  rw [C18_empty_text_regression.2.1, C18_empty_text_regression.2.2.1] at this
+  revert this
+  decide
 
 /-! ## the macro's hard-coded element lists against the runtime table (regenerated from source) -/
 
@@ -342,19 +473,15 @@ theorem C18_table_void_partial :
     ∀ t ∈ Leptos.Gen.Elements.macroSelfClosing, t ≠ sParam → (t, true, true) ∈ Leptos.Gen.Elements.rows := by
   decide +kernel
 
-/-- full: the macro escapes the text children of exactly the elements tachys escapes -/
-def C18_table_noescape_full : Prop :=
-  ∀ r ∈ Leptos.Gen.Elements.rows, macroEscapes r.1 = r.2.2
+/-- the macro escapes the text children of exactly the elements tachys escapes (after fix-c18-1) -/
+theorem C18_table_noescape : ∀ r ∈ Leptos.Gen.Elements.rows, macroEscapes r.1 = r.2.2 := by decide +kernel
 
-theorem C18_table_noescape_full_false : ¬ C18_table_noescape_full := by
+/-- before fix-c18-1 the lists differed in the row `noscript` -/
+theorem C18_table_noescape_old_false : ¬ (∀ r ∈ Leptos.Gen.Elements.rows, macroEscapesOld r.1 = r.2.2) := by
   intro h
   have := h (tNoscript, false, false) (by decide +kernel)
   revert this
   decide
-
-/-- the lists agree on every element but `noscript` (F-C18-1) -/
-theorem C18_table_noescape_partial :
-    ∀ r ∈ Leptos.Gen.Elements.rows, r.1 ≠ tNoscript → macroEscapes r.1 = r.2.2 := by decide +kernel
 
 /-! ## non-vacuity -/
 
@@ -372,7 +499,11 @@ def exTemplate : List Tmpl :=
       .elem tTitle [] [.text ['T','<','/','t','i','t','l','e','>']],
       .elem tScript [.plain false ['s','r','c'] ['a','&','b']] []]]
 
-example : wfTs false [[]] exTemplate = true := by decide
+example : wfTs [[]] exTemplate = true := by decide
+
+/-- empty strings and Unicode white space in class values are inside the hypothesis now -/
+example : wfTs [[]] [.elem sDiv [.cls true [cNbsp, 'x', ' ']] [.text [], .block [], .elem sP [.cls false [' ', cNbsp]] [.text []]]] = true := by
+  decide
 
 /-- … part of it is printed at macro time, part built at run time … -/
 example : (seenKids true true exTemplate).any (fun s => match s with | .iroot _ => true | _ => false) = true := by
@@ -390,16 +521,16 @@ example :
         [.elem sP [.cls false ['a']] [.text ['t','<'], .text ['u']], .block ['x']]]) := by decide
 
 /-- the hypotheses of `C18_inert_denotes` / `C18_paths_agree` -/
-example : wfT false [[]] (.elem sP [.plain false ['t','i','t','l','e'] ['q','"','<','&','>'], .cls false ['a',' ','b']]
+example : wfT [[]] (.elem sP [.plain false ['t','i','t','l','e'] ['q','"','<','&','>'], .cls false ['a',' ','b']]
     [.text ['t','<','&','>'], .text ['u'], .elem ['b','r'] [] []]) = true ∧
     isInert (.elem sP [.plain false ['t','i','t','l','e'] ['q','"','<','&','>'], .cls false ['a',' ','b']]
     [.text ['t','<','&','>'], .text ['u'], .elem ['b','r'] [] []]) = true := by decide
 
 /-- a context with a hole (`C18_static_parts_stable`): static content and a dynamic block in the same hole -/
 example :
-    wfTs false [[]] (plug [⟨.elem sP [.cls false ['c']], [.text ['a']], [.elem ['b'] [] [.text ['z']]]⟩, ⟨.elem sDiv [], [], []⟩]
+    wfTs [[]] (plug [⟨.elem sP [.cls false ['c']], [.text ['a']], [.elem ['b'] [] [.text ['z']]]⟩, ⟨.elem sDiv [], [], []⟩]
       [.elem ['i'] [] [.text ['s']]]) = true ∧
-    wfTs false [[]] (plug [⟨.elem sP [.cls false ['c']], [.text ['a']], [.elem ['b'] [] [.text ['z']]]⟩, ⟨.elem sDiv [], [], []⟩]
+    wfTs [[]] (plug [⟨.elem sP [.cls false ['c']], [.text ['a']], [.elem ['b'] [] [.text ['z']]]⟩, ⟨.elem sDiv [], [], []⟩]
       [.block ['d']]) = true := by decide
 
 end Leptos.Macro
